@@ -527,7 +527,13 @@ pub fn run(ctx: &Ctx) {
     }
     // conditional ops and equality on pairs of representations of equal / different values
     {
-        let reps: Vec<Vec<u64>> = (0..sp.count(&lat, 2).min(64)).map(|i| sp.vector(&lat, 2, i)).collect();
+        let mut reps: Vec<Vec<u64>> = (0..sp.count(&lat, 2).min(64)).map(|i| sp.vector(&lat, 2, i)).collect();
+        // position-tagged representations: every limb differs from every other limb of both operands, so a
+        // select/swap/assign that mixes up limb positions (or skips one) cannot go unnoticed
+        reps.push((0..sp.n).map(|i| i as u64 + 1).collect());
+        reps.push((0..sp.n).map(|i| 100 + i as u64).collect());
+        reps.push((0..sp.n).map(|i| ((1u64 << sp.width[i]) - 1) - i as u64).collect());
+        reps.push((0..sp.n).map(|i| lat[i].iter().max().unwrap().saturating_sub(7 * i as u64)).collect());
         for la in &reps {
             for lb in &reps {
                 ctx.eval(1);
@@ -584,7 +590,7 @@ pub fn run(ctx: &Ctx) {
     for l in uniform.iter().take(if quick { 5 } else { 8 }) {
         pool.push((l.clone(), sp.value(l)));
     }
-    let max_depth = if quick { 2 } else { 3 };
+    let max_depth = if quick { 2 } else if ctx.deep { 4 } else { 3 };
     let (unary, binary): (Vec<Un>, Vec<Bin>) = if quick {
         (vec![Un::Neg, Un::Square, Un::Square2, Un::Pow2k(2), Un::Invert], vec![Bin::Add, Bin::Sub, Bin::Mul])
     } else {
